@@ -247,6 +247,25 @@ done:
     mc_nontrivial();
     mc_outcome(i);
 }
+/* ---- the _from_str twin: it parses the TEXT of the string object it is given - also when that object is a URL whose parts were edited since its text was built */
+static void tw_desc(uint64_t i, void *ctx, char *b, size_t n) { (void) ctx; snprintf(b, n, "parse \"http://u:p@www.example.com:8080/p?q\", %s, new_from_str(that object): the components of its text", i ? "set_host(\"other.org\") and set_port(NULL) without unparse" : "nothing else"); }
+static void tw_case(uint64_t i, void *ctx)
+{
+    (void) ctx; const char *shape = "new_from_str on a URL object"; mc_set_shape(shape);
+    g_lk = LK_NONE; g_word = "http"; g_lookups = 0;
+    spif_url_t u = parse("http://u:p@www.example.com:8080/p?q", 0xA5);
+    if (!u) { FAIL("spif_url_new_from_ptr", "model:return", shape, "returned NULL"); return; }
+    if (i) { spif_url_set_host(u, spif_str_new_from_ptr((spif_charptr_t) "other.org")); spif_url_set_port(u, (spif_str_t) NULL); }
+    g_lookups = 0;
+    spif_url_t v = spif_url_new_from_str(SPIF_STR(u));
+    if (!v) FAIL("spif_url_new_from_str", "model:return", shape, "returned NULL");
+    else { const char *exp[7] = { "http", "u", "p", "www.example.com", "8080", "/p", "q" }, *got[7]; components(v, got);
+        for (int k = 0; k < 7; k++) if (!same(exp[k], got[k])) { FAIL("spif_url_new_from_str", "model:component", shape, "%s is %s%s%s, the text has \"%s\"", CNAME[k], got[k] ? "\"" : "", got[k] ? got[k] : "absent", got[k] ? "\"" : "", exp[k]); break; }
+        spif_url_del(v); }
+    spif_url_del(u);
+    mc_nontrivial();
+    mc_outcome(i);
+}
 int main(int argc, char **argv)
 {
     mc_init("C14", argc, argv);
@@ -258,6 +277,7 @@ int main(int argc, char **argv)
     mc_e2_level("tuples", 1, NTUP, tup_case, tup_desc, NULL);
     mc_e2_level("port_without_host", 1, NPH, ph_case, ph_desc, NULL);
     mc_e2_level("long_component", 9000, (uint64_t) NLONGS * 6, lc_case, lc_desc, NULL);
+    mc_e2_level("from_str_twin", 1, 2, tw_case, tw_desc, NULL);
     for (g_len = 0; g_len <= N; g_len++)
         if (!mc_e2_level("strings", g_len, mc_words_of_len(6, g_len) * NLK, str_case, str_desc, NULL)) break;
     return mc_finish();
